@@ -495,6 +495,54 @@ def run_laws(task):
                             note("style-reference-not-resolved:" + shape, "%s = my-own-style with my-own-style = %s (%s) gives %s = %r; "
                                  "%s = %s gives %r" % (o, val, shape, diff[0], got.get(diff[0]), o, val, ref.get(diff[0])),
                                  b0 + ["--config=" + cfg2], {"gitconfig_text": text})
+        elif which == "flag-false" and cfgmode == "config":
+            # a feature flag that the main section (or `git -c`) sets to false is false: the built-in feature is not
+            # enabled by a `flag = true` of a lower-priority feature section either - everything is as if that
+            # section did not mention the flag
+            cfg2 = os.path.join(home, "ff.gitconfig")
+            b0 = ["--paging=never", "--detect-dark-light=never", "--dark"]
+            for flag in LAW_FEATS:
+                for via in ("main", "gcp"):
+                    with open(cfg2, "w") as f:
+                        f.write("[delta]\n    features = x\n%s[delta \"x\"]\n    tabs = 3\n"
+                                % ("    %s = false\n" % flag if via == "main" else ""))
+                    env = {"git_config_parameters": "'delta.%s=false'" % flag} if via == "gcp" else None
+                    ref = sc(b0 + ["--config=" + cfg2], env)
+                    with open(cfg2, "a") as f:
+                        f.write("    %s = true\n" % flag)
+                    got = sc(b0 + ["--config=" + cfg2], env)
+                    n += 1
+                    distinct.add((flag, via))
+                    diff = sorted(k for k in ref if ref.get(k) != got.get(k))
+                    if diff:
+                        note("false-flag-still-enables-feature:" + via, "[delta] %s = false (%s) and [delta \"x\"] %s = true: "
+                             "%s = %r, without the line in the feature section %r"
+                             % (flag, via, flag, diff[0], got.get(diff[0]), ref.get(diff[0])), b0 + ["--config=" + cfg2], env)
+        elif which == "no-gitconfig" and cfgmode == "no-gitconfig":
+            # --no-gitconfig ignores every gitconfig source, for every way of running delta: the real binary with a
+            # HOME whose .gitconfig sets options, enables features and defines a theme must behave as with an empty HOME
+            from driver import run_cli
+            full = os.path.join(home, "home_full")
+            empty = os.path.join(home, "home_empty")
+            os.makedirs(full, exist_ok=True)
+            os.makedirs(empty, exist_ok=True)
+            with open(os.path.join(full, ".gitconfig"), "w") as f:
+                f.write("[delta]\n    side-by-side = true\n    features = zebra-theme\n    plus-style = red\n"
+                        "[delta \"zebra-theme\"]\n    dark = true\n    minus-style = blue\n[core]\n    pager = delta\n")
+            data = b"diff --git a/f b/f\n--- a/f\n+++ b/f\n@@ -1 +1 @@\n-a\n+b\n"
+            for extra, inp in ((["--show-config"], b""), (["--show-themes", "--dark"], b""), (["--show-themes"], data),
+                               ([], data), (["--show-colors"], b""), (["--list-syntax-themes"], b"")):
+                outs = []
+                for h in (full, empty):
+                    e = {"HOME": h, "XDG_CONFIG_HOME": h, "GIT_CONFIG_GLOBAL": os.path.join(h, ".gitconfig")}
+                    st, out, err = run_cli(["--no-gitconfig", "--paging=never", "--dark"] + extra, inp, env=e, cwd=h)
+                    outs.append((st, out))
+                n += 1
+                distinct.add(tuple(extra))
+                if outs[0] != outs[1]:
+                    note("no-gitconfig-reads-gitconfig:" + "+".join(extra), "`delta --no-gitconfig %s` depends on ~/.gitconfig: "
+                         "status %d / %d, output %r vs %r" % (" ".join(extra), outs[0][0], outs[1][0], outs[0][1][:200],
+                                                              outs[1][1][:200]), ["--no-gitconfig"] + extra, None)
         elif which == "three-ways":
             # a built-in feature is the same feature however it is enabled: by its flag, by --features, by
             # DELTA_FEATURES (features it enables in turn included)
@@ -582,7 +630,7 @@ def main(tier):
     tasks = [(seeds, cases[i:i + step], deadline) for i in range(0, len(cases), step)]
     res = explore.pmap(run_task, tasks)
     dres = explore.pmap(run_determinism, [(list(range(8 if tier == "quick" else 32)), deadline)])
-    lres = explore.pmap(run_laws, [("cli-wins", deadline), ("last-listed", deadline), ("independence", deadline), ("three-ways", deadline), ("gcp", deadline), ("reference", deadline)])
+    lres = explore.pmap(run_laws, [("cli-wins", deadline), ("last-listed", deadline), ("independence", deadline), ("three-ways", deadline), ("gcp", deadline), ("reference", deadline), ("flag-false", deadline), ("no-gitconfig", deadline)])
     n = sum(r["n"] for r in res)
     orders = set()
     distinct = set()
